@@ -3,6 +3,7 @@ import Mathlib.Tactic.Ring
 import Mathlib.Tactic.Linarith
 import Mathlib.Tactic.FieldSimp
 import Mathlib.Algebra.Order.Field.Basic
+import Mathlib.Algebra.Order.Field.Rat
 /-
 Helper lemmas for C03 (write-back layer of the equilibrium code), over any linearly ordered field.
 -/
@@ -174,6 +175,10 @@ theorem vleStep_inv (c : Cls K) (r0 : Rows K) (st st' : Rows K × VReg K) (e : V
     simp only [vleStep, Except.ok.injEq] at hs
     subst hs
     exact ⟨h.bal, h.mol, h.rowL, h.rowS⟩
+  | solveRaw v =>
+    simp only [vleStep, Except.ok.injEq] at hs
+    subst hs
+    exact ⟨h.bal, h.mol, h.rowL, h.rowS⟩
   | setFlowsReg =>
     simp only [vleStep] at hs
     cases hv : st.2.v with
@@ -242,6 +247,7 @@ theorem vleStep_sameReg (c : Cls K) (st st' : Rows K × VReg K) (e : VEv K)
     (hs : vleStep c st e = .ok st') : SameReg st'.2 st.2 := by
   cases e <;> simp only [vleStep] at hs
   case solve raw => cases hs; exact ⟨rfl, rfl, rfl⟩
+  case solveRaw v => cases hs; exact ⟨rfl, rfl, rfl⟩
   case setFlowsReg =>
     cases hv : st.2.v with
     | none => rw [hv] at hs; cases hs
@@ -317,6 +323,7 @@ theorem dewL_nonneg (reg : VReg K) (V : K) (x : List K) (i : Nat) (hm : 0 ≤ ge
 /-- The hypothesis a step needs for non-negativity: only the steps whose vapour flows were **not**
 clipped by the code carry one (it is monitored by the driver on every recorded parameter). -/
 def EvOK (c : Cls K) (reg : VReg K) : VEv K → Prop
+  | .solveRaw v => ∀ i < c.n, 0 ≤ get v i ∧ get v i ≤ get reg.mol i
   | .setFlowsLit v => ∀ i < c.n, i ∈ reg.idx → 0 ≤ get v i ∧ get v i ≤ get reg.mol i
   | .frac V => 0 ≤ V ∧ V ≤ 1
   | .lever _ y => 0 ≤ reg.fmol ∧ ∀ i < c.n, i ∈ reg.idx → 0 ≤ get y i
@@ -387,6 +394,16 @@ theorem vleStep_pos (c : Cls K) (reg0 : VReg K) (st st' : Rows K × VReg K) (e :
     subst hv
     rw [get_tab _ _ hi]
     exact clipV_bounds (h.mol i hi) _
+  | solveRaw v =>
+    simp only [vleStep, Except.ok.injEq] at hs
+    subst hs
+    refine ⟨h.g, h.l, h.mol, ?_, h.same⟩
+    intro v' hv i hi
+    simp only [Option.some.injEq] at hv
+    subst hv
+    have := hok i hi
+    rw [← hmol0] at this
+    exact this
   | setFlowsReg =>
     simp only [vleStep] at hs
     cases hv : st.2.v with
@@ -500,6 +517,7 @@ theorem vleStep_frame (c : Cls K) (st st' : Rows K × VReg K) (e : VEv K)
     simp only [writeGL, get_tab _ _ hi, hni, if_false, and_self]
   cases e <;> simp only [vleStep] at hs
   case solve raw => cases hs; exact ⟨rfl, rfl⟩
+  case solveRaw v => cases hs; exact ⟨rfl, rfl⟩
   case setFlowsReg =>
     cases hv : st.2.v with
     | none => rw [hv] at hs; cases hs
@@ -799,5 +817,95 @@ theorem sleSetupC_ok (c : Cls K) (cache : SCache) (hc : SCacheOK c cache) (r : R
           rw [h2]; exact lleIndex_eq_filter_nzKeys c _
         split <;> exact hfresh _ rfl rfl
   · exact hc
+
+/-! ### auxiliary facts formerly counted among the property theorems (clip lemma, phase-fraction clip, lever-rule
+facts about the pre-repair code and the tie line, `_F_mol ≥ 0`, the limited branches meet the `set_flows` hypothesis,
+one cached call equals a fresh call) -/
+
+/-- The solver result is clipped into `[0, mol]` whatever it is (the clip lemma of DESIGN §8.1). -/
+theorem solve_clip (total v : K) (ht : 0 ≤ total) :
+    clipV total v + (total - clipV total v) = total ∧ 0 ≤ clipV total v ∧ 0 ≤ total - clipV total v :=
+  clip_writeback ht v
+
+/-- `binary_phase_fraction.phase_fraction` ends in `as_valid_fraction`: whatever the Rachford–Rice solver
+returned, the phase fraction used by the cached path lies in `[0, 1]`. -/
+theorem phase_fraction_clipped (x : K) : 0 ≤ asValidFraction x ∧ asValidFraction x ≤ 1 :=
+  asValidFraction_bounds x
+
+/-- On the tie line the limit of `leverV` is inactive: for a binary whose overall composition satisfies
+`z = s·y + (1−s)·x` with an un-clipped `s ≤ 1`, `x, y` normalised and `x ∈ [0,1]`, the vapour flows
+`F·s·y` never exceed what is there — the proposed repair changes nothing for feasible specifications. -/
+theorem lever_limit_inactive_on_tie_line (F ma mb xa ya s : K) (hF : 0 ≤ F) (hsum : ma + mb = F)
+    (hs1 : s ≤ 1) (hx0 : 0 ≤ xa) (hx1 : xa ≤ 1)
+    (htie : ma = F * (s * ya + (1 - s) * xa)) :
+    F * s * ya ≤ ma ∧ F * s * (1 - ya) ≤ mb := by
+  have h1 : 0 ≤ F * ((1 - s) * xa) := mul_nonneg hF (mul_nonneg (by linarith) hx0)
+  have h2 : 0 ≤ F * ((1 - s) * (1 - xa)) := mul_nonneg hF (mul_nonneg (by linarith) (by linarith))
+  constructor
+  · rw [htie]; nlinarith
+  · have : mb = F - ma := by linarith
+    rw [this, htie]; nlinarith
+
+/-- `_lever_rule` as found in the tree writes `liquid = mol − F_mol·split_frac·y` without limiting the vapour
+flow to what is there.  Witness: 2 + 1 kmol of a binary, `x₀ = 1/2`, dew composition `y₀ = 2/3 − 10⁻⁶`: the
+split fraction is `1/(1 − 6·10⁻⁶) ∈ (1, 1.00001)`, passes the range check, is clipped to 1, and the liquid
+flow of the second chemical becomes `−3·10⁻⁶`.  (The model's `leverV` carries the proposed limit.) -/
+theorem lever_unlimited_counterexample :
+    (match leverSplit ({ mol := [2, 1], idx := [0, 1], fmol := 3, v := none } : VReg ℚ) (1/2)
+        [2/3 - 1/1000000, 1/3 + 1/1000000] with | .ok s => some s | .error _ => none) = some 1
+    ∧ (1 : ℚ) - 3 * 1 * (1/3 + 1/1000000) < 0
+    ∧ 0 ≤ (1 : ℚ) - leverV ({ mol := [2, 1], idx := [0, 1], fmol := 3, v := none } : VReg ℚ) 1
+        [2/3 - 1/1000000, 1/3 + 1/1000000] 1 := by
+  decide +kernel
+
+/-- `_F_mol ≥ 0` (a hypothesis of the lever and limited steps) follows from non-negative flows and
+non-negative `N_solutes` of the heavy chemicals. -/
+theorem vleSetup_fmol_nonneg (c : Cls K) (r : Rows K) (hg : ∀ i < c.n, 0 ≤ get r.g i) (hl : ∀ i < c.n, 0 ≤ get r.l i)
+    (hhs : ∀ h ∈ c.hs, 0 ≤ h) : 0 ≤ (vleSetup c r).2.fmol := by
+  have hall : ∀ i, 0 ≤ get (tab c.n fun i => get r.l i + get r.g i) i := by
+    intro i
+    by_cases hi : i < c.n
+    · rw [get_tab _ _ hi]; exact add_nonneg (hl i hi) (hg i hi)
+    · rw [get_tab_ge _ _ (not_lt.mp hi)]
+  unfold vleSetup
+  simp only
+  split
+  · simp only
+    have h1 := sumOver_nonneg (vleIndex c (tab c.n fun i => get r.l i + get r.g i)) _ (fun i _ => hall i)
+    have h2 := sumOver_nonneg c.light _ (fun i _ => hall i)
+    have h3 : (0 : K) ≤ ((c.heavy.zip c.hs).map fun p =>
+        get (tab c.n fun i => get r.l i + get r.g i) p.1 * p.2).foldl (· + ·) 0 := by
+      apply foldl_add_ge
+      intro x hx
+      obtain ⟨p, hp, rfl⟩ := List.mem_map.mp hx
+      exact mul_nonneg (hall p.1) (hhs p.2 (List.of_mem_zip hp).2)
+    linarith
+  · exact le_refl _
+
+/-- The vapour flows of the bubble-limited branch satisfy the hypothesis `0 ≤ v ≤ mol` that `set_flows` with an
+un-clipped source needs (what used to be monitored is now a consequence of the cap). -/
+theorem bubble_limited_meets_setflows_hypothesis (c : Cls K) (reg : VReg K) (V : K) (y : List K)
+    (hmol : ∀ i < c.n, 0 ≤ get reg.mol i) (h : EvOK c reg (.bubbleLimited V y)) :
+    EvOK c reg (.setFlowsLit (tab c.n (bubbleV reg V y))) := by
+  obtain ⟨hV, hF, hy⟩ := h
+  intro i hi hm
+  rw [get_tab _ _ hi]
+  exact ⟨bubbleV_nonneg reg V y i (hmol i hi) hV hF (hy i hi hm), bubbleV_le reg V y i⟩
+
+theorem dew_limited_meets_setflows_hypothesis (c : Cls K) (reg : VReg K) (V : K) (x : List K)
+    (hmol : ∀ i < c.n, 0 ≤ get reg.mol i) (h : EvOK c reg (.dewLimited V x)) :
+    EvOK c reg (.setFlowsLit (tab c.n fun i => get reg.mol i - dewL reg V x i)) := by
+  obtain ⟨hV, hF, hx⟩ := h
+  intro i hi hm
+  rw [get_tab _ _ hi]
+  have h1 := dewL_nonneg reg V x i (hmol i hi) hV hF (hx i hi hm)
+  have h2 := dewL_le reg V x i
+  exact ⟨by linarith, by linarith⟩
+
+theorem vleCallC_eq (c : Cls K) (cache : Option VCache) (hc : VCacheOK c cache) (r : Rows K) (evs : List (VEv K)) :
+    (vleCallC c cache r evs).1 = vleCall c r evs ∧ VCacheOK c (vleCallC c cache r evs).2 := by
+  obtain ⟨h1, h2⟩ := vleSetupC_eq c cache hc r
+  exact ⟨by simp only [vleCallC, vleCall, h1], h2⟩
+
 
 end ThermoVerif.EqWriteback
